@@ -89,7 +89,8 @@ func genClosures(r *rand.Rand, id string, tier string) string {
 				ops = append(ops, "clrerr")
 			}
 		case 8:
-			ops = append(ops, []string{"fold 1", "fold 0", "clrerr"}[r.Intn(3)])
+			// (an error recorded by the user is not a verdict on validity: the closures keep their say)
+			ops = append(ops, []string{"fold 1", "fold 0", "clrerr", "seterr", "seterr"}[r.Intn(5)])
 		}
 	}
 	if recv.T == 'K' && r.Intn(2) == 0 {
@@ -190,6 +191,12 @@ func runClosures(payload string) string {
 					s.SetErr(nil)
 				} else {
 					c.SetErr(nil)
+				}
+			case "seterr":
+				if isStack {
+					s.SetErr(errOf(7))
+				} else {
+					c.SetErr(errOf(7))
 				}
 			case "marshal":
 				in, _ := parseV(t[1:])
